@@ -86,6 +86,11 @@ type Contract struct {
 	// written only by this closure while it runs (calls made by the closure do
 	// not reach them).  ASSUMPTION, reported in the evidence.
 	PrivateCaptures bool
+	// AssumeCalleeRequires: the preconditions of contracted callees are NOT
+	// proved at the call sites of this function but assumed there (the
+	// function is under contract for its site assertions only).  ASSUMPTION,
+	// reported in the evidence.
+	AssumeCalleeRequires bool
 	// Bounded stand-in (never counted as proved): an exhaustive test of the
 	// real function up to a stated bound, injected with `go test -overlay`.
 	Bounded *BoundedSpec
@@ -108,7 +113,7 @@ type ContractFile struct {
 	Ghosts    map[string]string
 }
 
-var kwRe = regexp.MustCompile(`^(func|props|mode|requires|ghostinit|ensures_thorough|ensures|safe|pure|bounded|privatecaptures|modifies|preserves|assumed|lemma|nonnil|loop|invariant|unroll|decreases|site|assert|assume|hint|ghostset|ghostdecl|spec|note|end)\b`)
+var kwRe = regexp.MustCompile(`^(func|props|mode|requires|ghostinit|ensures_thorough|ensures|safe|pure|bounded|privatecaptures|assumecalleerequires|modifies|preserves|assumed|lemma|nonnil|loop|invariant|unroll|decreases|site|assert|assume|hint|ghostset|ghostdecl|spec|note|end)\b`)
 var ghostInitRe = regexp.MustCompile(`^ghost\([A-Za-z0-9_.]+,\s*"[A-Za-z0-9_]+"\)\s*==\s*-?[0-9]+$`)
 var ghostNameRe = regexp.MustCompile(`ghost(?:at)?\((?:[^"]*)"([A-Za-z0-9_]+)"\)`)
 var labelRe = regexp.MustCompile(`^\[([A-Za-z0-9_.\-]+)\]\s*`)
@@ -247,6 +252,8 @@ func ParseContractFile(path, pkgPath string) (*ContractFile, error) {
 				return nil, fmt.Errorf("%s:%d: bounded needs <file> <TestName> <stated bound>", path, rl.line)
 			}
 			cur.Bounded = &BoundedSpec{File: fs[0], Test: fs[1], Bound: strings.Join(fs[2:], " ")}
+		case "assumecalleerequires":
+			cur.AssumeCalleeRequires = true
 		case "privatecaptures":
 			cur.PrivateCaptures = true
 		case "safe":
